@@ -35,6 +35,7 @@ def apalache(ctx):
 def g_lt(ctx, ec, em, mp, cfg):
     """G: every full-scale stepped state is a vector for move_dist_lt and the deprecated aliases."""
     events, metas = [], []
+    seen = []
     for st in S.stepped_vectors(ctx, "g_full", cfg):
         c = st["cmd"]
         r, a, acc_in, T = c["r"], c["a"], c["c"], st["tick"]
@@ -43,6 +44,8 @@ def g_lt(ctx, ec, em, mp, cfg):
         mp.mp.dps = dps
         got = ec.move_dist_lt(r, a, T, S.acc_arg(acc_in))
         ctx.count(("G", r, a, acc_in, T))
+        if len(seen) < 40000 and (T + r) % 2 == 0:
+            seen.append((r, a, T, acc_in, want))
         if got != want or not S.is_int(*got):
             ctx.violation("lt.stepped_state", {"mode": "G", "fn": "move_dist_lt", "rate": r, "accel": a, "T": T, "accum": acc_in, "dps": dps},
                           list(want), list(got) if isinstance(got, tuple) else repr(got))
@@ -63,6 +66,15 @@ def g_lt(ctx, ec, em, mp, cfg):
         if ctx.evaluations % 20011 == 1:
             ctx.sample({"mode": "G", "rate": r, "accel": a, "accum": "clear" if acc_in == S.CLEAR else acc_in, "T": T,
                         "stepped": {"pos": want[0], "acc": want[1]}, "move_dist_lt": list(got)})
+    # second pass in the opposite order (long moves first): the answer to a call may not depend on the calls made before it
+    for (r, a, T, acc_in, want) in reversed(seen):
+        mp.mp.dps = 15
+        got = ec.move_dist_lt(r, a, T, S.acc_arg(acc_in))
+        if got != want:
+            ctx.violation("lt.stepped_state", {"mode": "G", "fn": "move_dist_lt", "rate": r, "accel": a, "T": T, "accum": acc_in, "dps": 15,
+                                               "order": "second pass, reverse order"}, list(want), repr(got))
+            if ctx.enough(30):
+                break
     # cross-check of the two oracles at full scale: stepped states must satisfy the BigInt closed form
     vs = S.judge(ctx, "g_cross", events)
     off = [(e, v) for e, v in zip(events, vs) if v != "ok"]
